@@ -45,7 +45,7 @@ func tryToBool(v reflect.Value) (bool, error) {
 		return v.Float() != 0, nil
 	case reflect.Int64, reflect.Int32, reflect.Int16, reflect.Int8, reflect.Int:
 		return v.Int() != 0, nil
-	case reflect.Uint64, reflect.Uint32, reflect.Uint16, reflect.Uint8, reflect.Uint:
+	case reflect.Uint64, reflect.Uint32, reflect.Uint16, reflect.Uint8, reflect.Uint, reflect.Uintptr:
 		return v.Uint() != 0, nil
 	case reflect.Bool:
 		return v.Bool(), nil
